@@ -165,7 +165,7 @@ func newE2E(carrier string, relay func(target string) string) (*e2e, error) {
 	w.stops = append(w.stops, func() { w.target.ln.Close() })
 	chans := channelsFor(map[string]string{"svc": w.target.ln.Addr().String(), "svc2": w.target.ln.Addr().String()})
 	w.stallConns = make(chan net.Conn, 64)
-	chans = append(chans, &stallChannel{conns: w.stallConns}, &failChannel{after: 400 * time.Millisecond}, &slowChannel{after: 2500 * time.Millisecond})
+	chans = append(chans, &stallChannel{conns: w.stallConns}, &failChannel{after: 400 * time.Millisecond}, &slowChannel{after: 4 * time.Second})
 	var url string
 	var ccfg cert.TlsConfig = clientCfg("none", false, true)
 	scert := "none"
